@@ -1347,3 +1347,100 @@ def interpret(prog, data, variant=None):
     except _Raise as e:
         return Failure(e.cls)
     return "".join(out)
+
+
+# --------------------------------------------------------------------------- loop-variable visibility
+# A second, self-contained family (C03 "loopvis"): nests of for loops in which the special
+# variable `loop` is read ONLY through a chosen set of "readers" - directly, or from inside
+# every kind of scope that can be written in a loop body (if, with, filter block, block set,
+# a macro defined in the loop body, a macro defined inside such a macro, a call block).
+# docs/templates.rst, "For": `loop` is available "inside of a for-loop block"; "Macros" /
+# scoping: nested scopes and macro bodies see enclosing variables, each loop has its own
+# `loop`, so every reader must report the values of the innermost loop it is WRITTEN in.
+#
+# A program is a tuple of levels (outermost first); a level is a tuple of readers
+# (wrapper, attr).  The first reader of a level is printed before the nested loop, the
+# others after it.  Level i iterates LV_SEQS[i] (lengths differ so that levels are told apart).
+
+LV_WRAPPERS = ("direct", "if", "with", "filter", "bset", "macro", "macro2", "callblock")
+LV_ATTRS = ("index", "length", "revindex")
+LV_SEQS = ((10, 20), (1, 2, 3), (5,))
+LV_PROLOGUE = "{% macro wrap() %}[{{ caller() }}]{% endmacro %}"
+
+
+def lv_readers(wrappers=LV_WRAPPERS, attrs=LV_ATTRS, extra=()):
+    return tuple((w, a) for w in wrappers for a in attrs) + tuple(extra)
+
+
+def lv_programs(depth, readers, kmax):
+    """all nests of exactly `depth` loops, every level carrying 0..kmax readers (ordered,
+    repetition allowed), at least one reader in the whole program."""
+    per_level = [()]
+    for k in range(1, kmax + 1):
+        per_level += list(itertools.product(readers, repeat=k))
+    for levels in itertools.product(per_level, repeat=depth):
+        if any(levels):
+            yield levels
+
+
+def _lv_reader_source(r, uid):
+    w, a = r
+    e = "{{ loop.%s }}" % a
+    if w == "direct":
+        return "d" + e
+    if w == "if":
+        return "{% if true %}i" + e + "{% endif %}"
+    if w == "with":
+        return "{% with t = 1 %}w" + e + "{% endwith %}"
+    if w == "filter":
+        return "{% filter upper %}f" + e + "{% endfilter %}"
+    if w == "bset":
+        return "{% set s %}s" + e + "{% endset %}{{ s }}"
+    if w == "macro":
+        return "{%% macro m%s() %%}m%s{%% endmacro %%}{{ m%s() }}" % (uid, e, uid)
+    if w == "macro2":
+        return ("{%% macro m%s() %%}{%% macro n%s() %%}n%s{%% endmacro %%}{{ n%s() }}{%% endmacro %%}{{ m%s() }}"
+                % (uid, uid, e, uid, uid))
+    if w == "callblock":
+        return "{% call wrap() %}c" + e + "{% endcall %}"
+    raise ValueError(r)
+
+
+def lv_source(levels):
+    def rec(i):
+        rs = [_lv_reader_source(r, "%d_%d" % (i, j)) for j, r in enumerate(levels[i])]
+        inner = rec(i + 1) if i + 1 < len(levels) else ""
+        return ("{%% for x%d in [%s] %%}({{ x%d }}" % (i, ", ".join(map(str, LV_SEQS[i])), i)
+                + "".join(rs[:1]) + inner + "".join(rs[1:]) + "){% endfor %}")
+
+    return LV_PROLOGUE + rec(0)
+
+
+def lv_expected(levels):
+    """reference: plain Python loops; a reader prints the counters of the loop it is written in."""
+    tags = {"direct": "d", "if": "i", "with": "w", "bset": "s", "macro": "m", "macro2": "n"}
+
+    def reader(r, vals):
+        w, a = r
+        v = str(vals[a])
+        if w == "filter":
+            return ("f" + v).upper()
+        if w == "callblock":
+            return "[c" + v + "]"
+        return tags[w] + v
+
+    def rec(i):
+        seq = LV_SEQS[i]
+        out = []
+        for n, item in enumerate(seq):
+            vals = {"index": n + 1, "length": len(seq), "revindex": len(seq) - n}
+            rs = [reader(r, vals) for r in levels[i]]
+            out.append("(%d" % item)
+            out += rs[:1]
+            if i + 1 < len(levels):
+                out.append(rec(i + 1))
+            out += rs[1:]
+            out.append(")")
+        return "".join(out)
+
+    return rec(0)
